@@ -118,6 +118,14 @@ def axisSum (k H : Nat) (f : Nat → Int) (y : Nat) : Int :=
 def axisBlend (k H : Nat) (f : Nat → Int) (y : Nat) : Int :=
   ((k - y % k : Nat) : Int) * f (y / k) + (if y / k + 1 < H then ((y % k : Nat) : Int) * f (y / k + 1) else 0)
 
+/-- `k²` times the reference RESIZE_BILINEAR value for scale `1 / k` (no half-pixel offset; `align_corners` with
+    `OH = (H - 1) * k + 1` has the same scale): source rows `q = y / k` and `min (q + 1) (H - 1)` with weights `k - y % k`, `y % k` -/
+def blendClamped (k H : Nat) (f : Nat → Int) (y : Nat) : Int :=
+  ((k - y % k : Nat) : Int) * f (y / k) + ((y % k : Nat) : Int) * f (min (y / k + 1) (H - 1))
+
+def bilinearNum (k H W : Nat) (f : Nat → Nat → Int) (y x : Nat) : Int :=
+  blendClamped k H (fun r => blendClamped k W (f r) x) y
+
 /-! ## 13. PRELU -/
 
 /-- reference PRELU on one element `v` with alpha element `y` (`TfliteRef.evalOp`, `reference_ops::BroadcastPrelu4DSlow`) -/
